@@ -377,13 +377,8 @@ Proof.
   - destruct (file_read i s0 segs off "") as [r st']. destruct (do_ops i st' ops). reflexivity.
 Qed.
 
-(* the model's run passes the whole boolean specification *)
-Theorem model_meets_spec i :
-  (forall bl, In bl (i_blocks i) -> Cons i bl) -> Forall (op_wf i) (i_ops i) ->
-  spec_b {| c_in := i; c_obs := {| ob_res := fst (run_model i); ob_log := cs_log (snd (run_model i)); ob_sync := true |} |} = true.
-Proof.
-  intros Hc Hw. unfold spec_b. cbn [c_in c_obs ob_res]. rewrite (model_ops_ok i Hc Hw), (model_notfound_ok i). reflexivity.
-Qed.
+(* (model_meets_spec, the model's run passes the whole boolean specification, is in proofs/C03_loc_proofs.v:
+   it needs the locator clauses proved there) *)
 
 (* the hypotheses are satisfiable: one service, one block "hello", first a flipped answer, then the right one *)
 Definition ex_block : blockin :=
